@@ -29,7 +29,40 @@ class CaseViolation(Exception):
 # ----------------------------------------------------------------------------------------------
 # executing one case
 # ----------------------------------------------------------------------------------------------
-def execute_case(steps, probe_seed):
+def control_record(steps, probe_seed):
+    """the hand-off record of the last trigger of a (well-posed) step list, None if it does not get there"""
+    seam = S.SolverSeam(probe_seed)
+    seam.install()
+    act = Actor("A")
+    try:
+        with S.Silence():
+            for st in steps:
+                if st["op"] == "trigger":
+                    run_trigger(act, seam, st)
+                elif st["op"] != "omission":
+                    act.apply(st)
+        return seam.records[-1] if seam.records else None
+    except Exception:
+        return None
+    finally:
+        seam.uninstall()
+
+
+def differs_beyond_start(rec, recC):
+    """objective / constraints / bounds / sizes of two hand-off records, away from the starting point.  (A refused
+    set_initial / set_value on a concatenation may have applied its legal part before raising: that moves x0 or p and is
+    not what C20 is about, so the functions are compared at the probe points only and only under equal p.)"""
+    d = S.compare(rec, recC, fields=("size",))
+    if d:
+        return d
+    if not S._close(rec["p"], recC["p"]):
+        return None
+    r1 = dict(rec, f=rec["f"][1:], g=rec["g"][1:])
+    r2 = dict(recC, f=recC["f"][1:], g=recC["g"][1:])
+    return S.compare(r1, r2, fields=("f", "g", "bounds"))
+
+
+def execute_case(steps, probe_seed, compare_after_refusal=True):
     """-> dict(outcome, ...). Raises CaseViolation when the ill-posed specification gets through."""
     seam = S.SolverSeam(probe_seed)
     seam.install()
@@ -65,8 +98,23 @@ def execute_case(steps, probe_seed):
                     rejected_at = "declaration" if k != "trigger" else "trigger:" + st["what"]
                     info["exception"] = type(e).__name__ + ": " + str(e)[:160]
                     if k != "trigger":
-                        # the declaring call refused: the fault never entered the specification
-                        break
+                        # the declaring call refused: the fault never entered the specification.  The user goes on
+                        # (the remaining steps still run): whatever reaches the solver from now on must be the
+                        # specification without the refused declaration
+                        info["refused_step"] = i
+                        info["reached_at_refusal"] = seam.reached
+        if info.get("refused_step") is not None and seam.reached > info["reached_at_refusal"] and compare_after_refusal:
+            rec = seam.records[-1]
+            ctrl_steps = [st for j, st in enumerate(steps) if j != info["refused_step"]]
+            recC = control_record(ctrl_steps, probe_seed)
+            if recC is not None:
+                d = differs_beyond_start(rec, recC)
+                if d:
+                    raise CaseViolation("refused-but-transcribed", "the declaring call raised (%s), yet the NLP handed to the solver afterwards is not the one of the "
+                                        "specification without that declaration: %s" % (info.get("exception"), d[1][:200]))
+                info["after_refusal"] = "nlp-equals-control"
+            else:
+                info["after_refusal"] = "control-unavailable"
         handed = seam.reached - info["reached_before_fault"]
         fi = [i for i, st in enumerate(steps) if st.get("fault")]
         if fault_seen and rejected_at is None and not any(st["op"] == "trigger" for st in steps[fi[0]:]):
@@ -78,7 +126,7 @@ def execute_case(steps, probe_seed):
             raise CaseViolation("accepted", "no exception was raised; %d NLP(s) handed to the solver" % handed)
         if rejected_at.startswith("trigger") and handed > 0:
             raise CaseViolation("handed-to-solver", "an exception was raised (%s) but %d NLP(s) still reached the solver" % (info.get("exception"), handed))
-        return {"outcome": "rejected", "at": rejected_at, "exception": info.get("exception")}
+        return {"outcome": "rejected", "at": rejected_at, "exception": info.get("exception"), "after_refusal": info.get("after_refusal", "raises" if info.get("refused_step") is not None else None)}
     finally:
         seam.uninstall()
 
@@ -123,15 +171,26 @@ def with_method(ops, cls, r):
     return out
 
 
-def as_substage(steps, name="s1", parent_method=False):
+PARENT_SYMS = [{"op": "sym", "name": "vP", "kind": "variable"}, {"op": "sym", "name": "pP", "kind": "parameter"},
+               {"op": "set_value", "p": "pP", "v": 1.0}, {"op": "set_initial", "x": "vP", "g": ["num", 0.5]},
+               {"op": "add_objective", "expr": ["sq", ["-", ["s", "vP"], ["s", "pP"]]]}]
+
+
+def as_substage(steps, name="s1", parent_method=False, parent_syms=False):
     """the same OCP declared as the only stage of an otherwise empty parent (which may have declared a method of
-    its own: that says nothing about the stage)"""
+    its own: that says nothing about the stage; and may own a variable, a parameter and an objective term)"""
     out = []
     for st in steps:
         st = dict(st)
         k = st["op"]
+        if st.get("root"):  # a declaration made on the parent itself
+            st.pop("root")
+            out.append(st)
+            continue
         if k == "new_ocp":
             out.append({"op": "new_ocp"})
+            if parent_syms:
+                out.extend(jcopy(PARENT_SYMS))
             if parent_method:
                 out.append({"op": "method", "m": {"cls": "MultipleShooting", "N": 2, "M": 1, "intg": "rk"}})
             d = {"op": "stage", "name": name}
@@ -278,6 +337,26 @@ def cases_for(ops, sp, cls, r):
     return cases
 
 
+def parent_cases(ops, sp, cls):
+    """faults declared on the parent of a multi-stage OCP (its method is the plain DirectMethod): values for the
+    parent's own variable, for a symbol of the sub-stage, for an unknown symbol; guesses for the parent's parameter"""
+    x0 = sp.names("state")[0]
+    rows = sp.sym(x0).get("rows", 1)
+    adds = [("set_value_on_variable", "parent-variable", {"op": "set_value", "p": "vP", "v": 1.0}),
+            ("set_value_unknown", "parent", {"op": "set_value", "p": "?q", "v": 1.0}),
+            ("set_value_on_state", "sub-stage-state-via-parent", {"op": "set_value_expr", "expr": ["in", "s1", ["s", x0]], "v": 1.0 if rows == 1 else {"as": "np", "v": [[1.0]] * rows}}),
+            ("set_value_on_variable", "vertcat(parent-param,parent-var)", {"op": "set_value_cat", "ps": ["pP", "vP"], "v": [1.0, 1.0]}),
+            ("set_initial_on_parameter", "parent-parameter", {"op": "set_initial", "x": "pP", "g": ["num", 1.0]}),
+            ("set_initial_unknown", "parent", {"op": "set_initial", "x": "?q", "g": ["num", 1.0]})]
+    cases = []
+    for kind, pos, add in adds:
+        a = [dict(F(add), fault_kind=kind, root=True)]
+        for trig_name, trig in sorted(TRIGGERS.items()):
+            cases.append(((kind, pos, cls, "before-first-solve", trig_name), ops + a + jcopy(trig)))
+            cases.append(((kind, pos, cls, "after-solve", trig_name), ops + [{"op": "trigger", "what": "solve"}] + a + jcopy(trig)))
+    return cases
+
+
 # ----------------------------------------------------------------------------------------------
 # engine interface
 # ----------------------------------------------------------------------------------------------
@@ -309,7 +388,9 @@ def run_seed(seed):
     result["config"]["method"] = METHODS[mi]
     result["config"]["base_seed"] = base_seed
     result["config"]["placement"] = "sub-stage" if sub else "top-level"
-    place = (lambda x: as_substage(x, parent_method=parent_method)) if sub else (lambda x: x)
+    parent_syms = sub and base_seed % 3 != 0
+    result["config"]["parent_symbols"] = parent_syms
+    place = (lambda x: as_substage(x, parent_method=parent_method, parent_syms=parent_syms)) if sub else (lambda x: x)
     for cls in methods:
         mops = with_method(ops, cls, r)
         ctrl = execute_case(place(mops + jcopy(TRIGGERS["solve"])), probe_seed)
@@ -317,7 +398,7 @@ def run_seed(seed):
         if ctrl["outcome"] != "control-ok":
             counts["control_failed"] += 1
             continue
-        for key, steps in cases_for(mops, sp, cls, r):
+        for key, steps in cases_for(mops, sp, cls, r) + (parent_cases(mops, sp, cls) if parent_syms else []):
             if sub and key[0] == "no_solver":
                 pass  # the solver belongs to the parent: same case, still meaningful
             steps = place(steps)
@@ -339,6 +420,8 @@ def run_seed(seed):
             keys.add("|".join(key))
             by_fault[key[0]] = by_fault.get(key[0], 0) + 1
             counts["rejected_at_declaration" if out.get("at") == "declaration" else "rejected_at_trigger"] += 1
+            if out.get("after_refusal"):
+                counts["after_refusal:" + out["after_refusal"]] = counts.get("after_refusal:" + out["after_refusal"], 0) + 1
             if sample is None and key[0] == "missing_der":
                 sample = {"key": list(key), "steps": steps, "outcome": out}
         if result["verdict"] != "ok":
